@@ -51,6 +51,16 @@ def source(case):
     return src
 
 
+def elsewhere_files(case):
+    """folder mode: another crate that defines a type with the same Rust identifier as the target"""
+    e = case.get("elsewhere", "none")
+    if e == "none":
+        return []
+    ren = '#[serde(rename = "ApiTarget")]\n' if e == "same_ident_renamed" else ""
+    src = f"#[typeshare]\n{ren}pub struct Target {{ pub api: bool }}\n#[typeshare]\npub struct ApiOnly {{ pub a: u32 }}\n"
+    return [{"src": src, "crate": "api", "path": "api/src/lib.rs", "out": "api"}]
+
+
 def leaves(ty, acc):
     """all user-node names in a type tree, outermost first"""
     if not isinstance(ty, dict):
@@ -131,13 +141,14 @@ def sites(lang, obs, case, prefix):
 def run_cases(chk, cases):
     srcs = [source(c["case"]) for c in cases]
     events, meta = [], []
-    for prefix in ("", "Pre"):
-        sel = [i for i, c in enumerate(cases) if c["case"]["prefix"] == prefix]
+    for prefix, folder in (("", False), ("Pre", False), ("", True), ("Pre", True)):
+        sel = [i for i, c in enumerate(cases) if c["case"]["prefix"] == prefix and (c["case"].get("mode", "single") == "folder") == folder]
         if not sel:
             continue
         cfgs = {"swift": {"prefix": prefix}, "kotlin": {"prefix": prefix}} if prefix else None
-        langs = common.LANGS if not prefix else ["swift", "kotlin"]
-        results = observe.generate([srcs[i] for i in sel], langs=langs, cfgs=cfgs)
+        langs = [l for l in (common.LANGS if not prefix else ["swift", "kotlin"]) if not (folder and l == "go")]      # Go has no folder mode
+        extra = [elsewhere_files(cases[i]["case"]) for i in sel] if folder else None
+        results = observe.generate([srcs[i] for i in sel], langs=langs, cfgs=cfgs, multi=folder, extra_files=extra)
         for i, per in zip(sel, results):
             c = cases[i]
             for lang in langs:
@@ -194,7 +205,8 @@ def run(chk):
                 "prefixed-original" if e["ref"] == e["prefix"] + e["target"]["ident"] else "expected-name" if e["ref"] == exp else "other")
         # when the DEFINITION is what is off (absent under the required name) every site shows it: one signature per item kind
         site_dim = site if defined else "anysite"
-        chk.mismatch(f"C09/{lang}/{case['kind'] if site not in ('second',) else 'struct'}/{site_dim}/{'renamed' if e['target'].get('rename') else 'plain'}/"
+        where = lang + ("+folder" if case.get("mode") == "folder" else "") + (":" + case["elsewhere"] if case.get("elsewhere", "none") != "none" else "")
+        chk.mismatch(f"C09/{where}/{case['kind'] if site not in ('second',) else 'struct'}/{site_dim}/{'renamed' if e['target'].get('rename') else 'plain'}/"
                      f"{'prefix' if e['prefix'] else 'noprefix'}/ref={form}/def={'present' if defined else 'absent'}",
                      f"{lang}: {site} reference to {e['target']} is spelled `{e['ref']}`, definition name required `{exp}`; definitions: {e['defs']}",
                      {"case": case, "lang": lang, "site": site}, exp, e["ref"])
